@@ -524,7 +524,7 @@ class Interp:
                                  f"{len(target.elts)} names", st)
                     raise Unsupported("bad unpack")
                 vals = [self.index_arr(val, [i], st) for i in range(val.shape[0])]
-            elif isinstance(val, (list, tuple, _NT)):
+            elif isinstance(val, (list, tuple, _NT, str)):
                 if isinstance(val, _NT):
                     val = val.values
                 if len(val) != len(target.elts):
@@ -716,7 +716,7 @@ class Interp:
     def truth(self, v, node):
         if isinstance(v, (bool, int, str, list, tuple, dict, type(None), Fraction, range)):
             return bool(v)
-        if isinstance(v, (_Closure, _NT, _NTClass, _Module, _Builtin)):
+        if isinstance(v, (_Closure, _NT, _NTClass, _Module, _Builtin, _Partial)):
             return True
         if isinstance(v, Arr) and v.rank == 0 and v.get(()).is_const():
             return v.get(()).cval() != 0
@@ -743,7 +743,8 @@ class Interp:
     def ev_Name(self, node, env):
         if node.id in env:
             return env[node.id]
-        if node.id in ("np", "maths", "numerical", "self", "sc", "sys"):
+        if node.id in ("np", "maths", "numerical", "self", "sc", "sys", "operator", "functools",
+                       "itertools", "collections"):
             return _Module(node.id)
         if node.id in ("True", "False", "None"):
             return {"True": True, "False": False, "None": None}[node.id]
@@ -1151,6 +1152,29 @@ class Interp:
             return GRID
         base = self.ev(node.value, env)
         if isinstance(base, Arr):
+            items = node.slice.elts if isinstance(node.slice, ast.Tuple) else [node.slice]
+            newax = [i for i, it in enumerate(items)
+                     if unparse(it) in ("np.newaxis", "None", "numpy.newaxis")]
+            if newax:
+                # x[.., np.newaxis, ..]: index without the new axes, then insert them
+                rest = [it for i, it in enumerate(items) if i not in newax]
+                if rest:
+                    sub = ast.Subscript(value=node.value, slice=ast.Tuple(
+                        elts=rest, ctx=ast.Load()) if len(rest) > 1 else rest[0],
+                        ctx=ast.Load())
+                    spec = self._slice_spec(sub.slice, env, base, node)
+                    if any(not isinstance(x, tuple) for x in spec):
+                        raise Unsupported("np.newaxis mixed with integer indices")
+                    cur = self.index_arr(base, spec, node)
+                else:
+                    cur = base
+                for pos in newax:
+                    if pos > cur.rank:
+                        raise Unsupported("np.newaxis on a grid axis")
+                    cur = Arr(cur.shape[:pos] + (1,) + cur.shape[pos:],
+                              tuple(cur.var[:pos]) + (None,) + tuple(cur.var[pos:]),
+                              {idx[:pos] + (0,) + idx[pos:]: v for idx, v in cur.c.items()})
+                return cur
             spec = self._slice_spec(node.slice, env, base, node)
             return self.index_arr(base, spec, node)
         if isinstance(base, (list, tuple, str, range)):
@@ -1292,6 +1316,18 @@ class Interp:
         if isinstance(f, _Closure):
             return self.call_function(f.fn, args, kwargs, f.name, False, rel=f.rel,
                                       closure=f.env)
+        if isinstance(f, _Partial):
+            return self.apply(f.f, list(f.args) + list(args), node, dict(f.kwargs, **kwargs))
+        if isinstance(f, _Module) and f.name == "functools.partial" and args:
+            return _Partial(args[0], args[1:], kwargs)
+        if isinstance(f, _Module) and f.name.startswith("operator."):
+            return self.operator_call(f.name[9:], args, node)
+        if isinstance(f, _Module) and f.name == "functools.reduce" and len(args) >= 2:
+            seq = list(args[1])
+            acc = args[2] if len(args) > 2 else seq.pop(0)
+            for x in seq:
+                acc = self.apply(args[0], [acc, x], node)
+            return acc
         if isinstance(f, _NTClass):
             vals = list(args)
             for fld in f.fields[len(args):]:
@@ -1409,19 +1445,50 @@ class Interp:
             return obj.values[obj.cls.fields.index(name)]
         raise Unsupported("getattr of " + type(obj).__name__)
 
-    def apply(self, f, args, node):
+    _OPS = {"add": ast.Add, "sub": ast.Sub, "mul": ast.Mult, "truediv": ast.Div,
+            "pow": ast.Pow, "iadd": ast.Add, "isub": ast.Sub, "imul": ast.Mult,
+            "floordiv": ast.FloorDiv, "mod": ast.Mod}
+
+    def operator_call(self, op, args, node):
+        if op in self._OPS and len(args) == 2:
+            return self.binop(self._OPS[op](), args[0], args[1], node)
+        if op == "neg" and len(args) == 1:
+            if isinstance(args[0], (int, Fraction)) and not isinstance(args[0], bool):
+                return -args[0]
+            return self.to_arr(args[0]).map(lambda p: -p)
+        if op == "pos" and len(args) == 1:
+            return args[0]
+        raise Unsupported("operator." + op)
+
+    def apply(self, f, args, node, kwargs=None):
         """Call a function value with already evaluated arguments."""
+        kwargs = kwargs or {}
         if isinstance(f, _Closure):
-            return self.call_function(f.fn, args, {}, f.name, False, rel=f.rel, closure=f.env)
+            return self.call_function(f.fn, args, kwargs, f.name, False, rel=f.rel,
+                                      closure=f.env)
         if isinstance(f, _Builtin):
-            return self.builtin(f.name, args, {}, node)
+            return self.builtin(f.name, args, kwargs, node)
         if isinstance(f, _BoundMethod):
-            return self.bound(f, args, {}, node)
+            return self.bound(f, args, kwargs, node)
+        if isinstance(f, _Partial):
+            return self.apply(f.f, list(f.args) + list(args), node, dict(f.kwargs, **kwargs))
         if isinstance(f, _Module):
+            if f.name.startswith("operator."):
+                return self.operator_call(f.name[9:], args, node)
+            if f.name == "np.einsum":
+                return self.einsum_values(args, node)
             if f.name.startswith("np."):
-                return self.np_call(f.name[3:], args, {}, node)
+                return self.np_call(f.name[3:], args, kwargs, node)
             if f.name.startswith("self.fd."):
                 return self.fd_call(f.name[8:], args, node)
+            if f.name.startswith("self.") and f.name.count(".") == 1:
+                fn = self.core.get(self.cls + "." + f.name[5:])
+                if fn is not None:
+                    return self.call_function(fn, args, kwargs, f.name[5:], True, rel=self.rel)
+            if f.name.startswith("maths."):
+                fn = self.maths.get(f.name[6:])
+                if fn is not None:
+                    return self.call_function(fn, args, kwargs, f.name, False, rel="maths.py")
         raise Unsupported("call of a function value")
 
     def isinstance(self, v, tnode):
@@ -1454,6 +1521,18 @@ class Interp:
                 return o.count(*args)
             if a in ("startswith", "endswith"):
                 return getattr(o, a)(*args)
+            if a == "join" and len(args) == 1 and isinstance(args[0], (list, tuple)) \
+                    and all(isinstance(x, str) for x in args[0]):
+                return o.join(args[0])
+            if a in ("replace", "strip", "lstrip", "rstrip", "upper", "lower", "partition",
+                     "rpartition", "rsplit", "index", "find") and all(
+                    isinstance(x, (str, int)) for x in args):
+                r = getattr(o, a)(*args)
+                return list(r) if isinstance(r, tuple) and a not in ("partition",
+                                                                     "rpartition") else r
+            if a == "format" and all(isinstance(x, (str, int)) and not isinstance(x, bool)
+                                     for x in list(args) + list(kwargs.values())):
+                return o.format(*args, **kwargs)
         if isinstance(o, dict):
             if a == "keys":
                 return list(o.keys())
@@ -1740,15 +1819,19 @@ class Interp:
 
     # -- einsum ----------------------------------------------------------------------------------------
     def einsum(self, node, env):
-        self.einsum_count += 1
         spec0 = None
         if node.args and isinstance(node.args[0], ast.Constant):
             spec0 = node.args[0].value
         elif node.args:
             try:
                 spec0 = self.ev(node.args[0], env)
-            except Unsupported:
-                spec0 = None
+            except Unsupported as e:
+                raise Unsupported(f"einsum with non-literal subscripts ({e})")
+        return self.einsum_values([spec0] + self._elts(node.args[1:], env), node)
+
+    def einsum_values(self, values, node):
+        self.einsum_count += 1
+        spec0 = values[0] if values else None
         if not isinstance(spec0, str):
             raise Unsupported("einsum with non-literal subscripts")
         spec = spec0.replace(" ", "")
@@ -1756,7 +1839,7 @@ class Interp:
             raise Unsupported("implicit einsum output")
         ins, out = spec.split("->")
         ins = ins.split(",")
-        ops = [self.to_arr(v) for v in self._elts(node.args[1:], env)]
+        ops = [self.to_arr(v) for v in values[1:]]
         if len(ins) != len(ops):
             self.problem("einsum-operands", f"'{spec}' names {len(ins)} operands, "
                          f"{len(ops)} given", node)
@@ -1877,6 +1960,11 @@ class _Closure:
     the environment is consulted when the function is called)."""
     def __init__(self, fn, env, rel, name):
         self.fn, self.env, self.rel, self.name = fn, env, rel, name
+
+
+class _Partial:
+    def __init__(self, f, args, kwargs):
+        self.f, self.args, self.kwargs = f, list(args), dict(kwargs)
 
 
 class _NTClass:
